@@ -135,15 +135,17 @@ def slice_inner(repo: Repo, R, prefix: str):
     # otherwise (i, i + 1); step = width = 1
     ctor = [c for c, _b in pat.find("SliceInner(*$_)", ast.Module(int_if.body, []))]
     norm_ok = c_ok = False
-    if ctor and W is not None:
-        kw = {k.arg: k.value for k in ctor[0].keywords}
-        if set(kw) >= {"top", "bot", "step", "width"}:
-            ia = shared.alternatives(fi.node, int_if.test.args[0], [], at=int_if.test)
-            idx_x = ast.unparse(X(ia[0][0])) if len(ia) == 1 else idx
-            seen_neg = seen_pos = False
-            norm_ok = c_ok = True
+    if ctor and W is not None and all(set(k.arg for k in ct.keywords) >= {"top", "bot", "step", "width"} for ct in ctor):
+        ia = shared.alternatives(fi.node, int_if.test.args[0], [], at=int_if.test)
+        idx_x = ast.unparse(X(ia[0][0])) if len(ia) == 1 else idx
+        seen_neg = seen_pos = False
+        norm_ok = c_ok = True
+        unit = True
+        for ct in ctor:  # one construction, or one per sign of the index
+            kw = {k.arg: k.value for k in ct.keywords}
+            unit = unit and ast.unparse(kw["step"]) == "1" and ast.unparse(kw["width"]) == "1"
             for fld, off in (("bot", 0), ("top", 1)):
-                for v, cds in shared.alternatives(fi.node, kw[fld], list(path_conditions(fi.node, ctor[0])), at=ctor[0]):
+                for v, cds in shared.alternatives(fi.node, kw[fld], list(path_conditions(fi.node, ct)), at=ct):
                     neg = None
                     for t, pol in shared.resolved_conditions(fi.node, cds):
                         if au.cmp_norm(X(t)) == au.cmp_norm(ast.parse(f"{idx_x} < 0", mode="eval").body):
@@ -159,8 +161,8 @@ def slice_inner(repo: Repo, R, prefix: str):
                         seen_pos = seen_pos or neg is False
                         if not au.poly_eq(vx, ast.parse(f"{idx_x} + {off}", mode="eval").body):
                             (c_ok, norm_ok) = (False, norm_ok) if neg is False else (c_ok, False)
-            norm_ok = norm_ok and seen_neg
-            c_ok = c_ok and seen_pos and ast.unparse(kw["step"]) == "1" and ast.unparse(kw["width"]) == "1"
+        norm_ok = norm_ok and seen_neg
+        c_ok = c_ok and seen_pos and unit
     R.check(norm_ok, r_int, key_of(fi, "int-negative-normalised"), fi.at(int_if),
             f"a negative index is normalised by adding the parent width `{W}`: {norm_ok}",
             why="negative indices select the wrong bit")
@@ -189,13 +191,14 @@ def slice_inner(repo: Repo, R, prefix: str):
                 why="`b.s[-1]` / `inst.port[2:]` on a bundle or port reference raise TypeError although in range")
 
     # ---------------- slice branch
-    ind = pat.find("$I.indices($W)", slice_if)
-    rng = pat.find("len(range($A, $B, $C))", slice_if)
+    slice_arm = ast.Module(slice_if.body, [])  # the arm itself (an `elif` for the other index kind hangs off its orelse)
+    ind = pat.find("$I.indices($W)", slice_arm)
+    rng = pat.find("len(range($A, $B, $C))", slice_arm)
     empties = []
-    for n in ast.walk(slice_if):
+    for n in ast.walk(slice_arm):
         if isinstance(n, ast.If) and au.raises(n.body):
             empties.append(n)
-    ctor = [c for c, _b in pat.find("SliceInner(*$_)", slice_if)]
+    ctor = [c for c, _b in pat.find("SliceInner(*$_)", slice_arm)]
     if not ctor:
         raise AnalysisError(f"idiom-unknown: no SliceInner construction on the slice branch of {fi.site}")
     kw = {k.arg: k.value for k in ctor[0].keywords}
@@ -207,7 +210,7 @@ def slice_inner(repo: Repo, R, prefix: str):
                 why="start/stop are clamped against another length than the parent's")
         # triple unpacked from indices()
         trip = None
-        for st in ast.walk(slice_if):
+        for st in ast.walk(slice_arm):
             if isinstance(st, ast.Assign) and st.value is c and isinstance(st.targets[0], ast.Tuple) and len(st.targets[0].elts) == 3:
                 trip = [ast.unparse(e) for e in st.targets[0].elts]
         if trip is None:
